@@ -271,3 +271,28 @@ func init() {
 	extend("C03", func(r *Run) { aminoNumbersCanonical(r, "C03-R12") })
 	extend("C20", func(r *Run) { aminoNumbersCanonical(r, "C20-R12") })
 }
+
+// forcedUnstakeLeavesQueue: no abandoned entry in the unstaking queue (C06). Found by a seeding sub-agent's remark,
+// reproduced (repro/C06_abandoned_queue_entry_test.go.txt), repaired by d73ecb5.
+func forcedUnstakeLeavesQueue(r *Run, rule string) {
+	P := r.P
+	r.Rule(rule, "a validator forced out while unstaking leaves the unstaking queue: ForceValidatorUnstake calls deleteUnstakingValidator(ctx, validator) exactly under validator.IsUnstaking(), on every such path, before the status is overwritten — an abandoned entry would complete a later, second unstaking of the same validator early", 3)
+	f := r.fn(posK + "ForceValidatorUnstake")
+	if f == nil {
+		return
+	}
+	c := r.oneCall(rule, "ForceValidatorUnstake", f, posK+"deleteUnstakingValidator")
+	if c == nil {
+		return
+	}
+	r.Check(argTerm(P.callTerm(c), 2).String() == "param:validator", rule, "ForceValidatorUnstake/queue-entry-of-the-record-as-stored", P.InstrPos(c), "param:validator", "deleteUnstakingValidator receives "+oneLine(argTerm(P.callTerm(c), 2).String())+" ; required the validator as it came in (its UnstakingCompletionTime names the slot)")
+	gs := P.nonLoopGuards(c)
+	ok := len(gs) == 1 && gs[0].Pos && gs[0].Key() == "(x/pos/types.Validator).IsUnstaking(param:validator)"
+	r.Check(ok, rule, "ForceValidatorUnstake/iff-unstaking", P.InstrPos(c), "exactly under IsUnstaking", "the queue entry is removed under {"+strings.Join(atomStrings(gs), " ; ")+"} ; required exactly validator.IsUnstaking()")
+	r.mustFollowEdge(rule, "ForceValidatorUnstake/unstaking=>leaves-queue", f, `^\(x/pos/types\.Validator\)\.IsUnstaking\(param:validator\)$`,
+		func(in ssa.Instruction) bool { return in == ssa.Instruction(c) }, CallTo(posK+"SetValidator"), "deleteUnstakingValidator")
+}
+
+func init() {
+	extend("C06", func(r *Run) { forcedUnstakeLeavesQueue(r, "C06-R17") })
+}
